@@ -1,20 +1,22 @@
+\* after a run the user goes on with the same object: up to four what-if steps
+\* (Perturbation.apply / apply_compensators in any order), then reset()
 SPECIFICATION Spec
 CONSTANTS
   Values <- MCValues
   Nom <- MCNom
-  Shape = "mc"
-  KindSets <- AllKinds
+  Shape = "sens"
+  KindSets <- RangeOnly
   RangeVals <- MCRange
   ScalarVal = 2
   NTrials = 2
-  Streams <- Streams4
+  Streams <- NoStream
   WithComp = TRUE
   CompFns <- MCCompFns
   FailSets <- MCFailSets
   TrialReset = TRUE
   FinalReset = TRUE
   CompRebases = FALSE
-  MaxUser = 0
+  MaxUser = 4
 INVARIANT TypeOK
 INVARIANT RowsTrue
 INVARIANT NominalReproduced
